@@ -55,7 +55,9 @@ RULE = (
     "distinct by the whole case. E4 (real Channel on a fake transport under the deterministic scheduler, lock- and line-level switch points, "
     "generated preemption lists): e4snd = window {0,1,100,4095,4096,4097,32768} x max packet x 2-3 sender tasks (sizes 0..9000) || "
     "transport task delivering 0-4 adjusts; e4rcv = window {32768,32769,40000} x transport task feeding <= 8 messages within the window || 1-2 "
-    "reader tasks; non-trivial as above"
+    "reader tasks; non-trivial as above. e4snd 'tight' sub-family: 2-3 tasks with one blocking call each (sizes at/above a window from "
+    "{1,100,4095,4096,4097}), no adjust before the final grant, preemptions directed at the switch points of _send between leaving the channel "
+    "lock and the transmit (two senders allotted the same window bytes)"
 )
 
 TO = 20.0
@@ -379,11 +381,21 @@ rcv_case = st.one_of(
 E4_TRACED = {"send", "send_stderr", "sendall", "sendall_stderr", "_send", "_wait_for_send_window", "_window_adjust", "recv", "recv_stderr", "_check_add_window", "_feed", "_feed_extended"}
 
 
+def _after_reservation(tag):
+    """Switch points of a sender between leaving the channel lock (window share reserved) and the transmit."""
+    if tag[0] == "send":
+        return True
+    if tag[0] == "release" and tag[1] == "chan.lock":
+        return True
+    return tag[0] == "line" and tag[2] == "_send"
+
+
 def _bench(case, **chan_kw):
     import paramiko.channel as PC
 
     tf = {PC.__file__: E4_TRACED} if case.get("trace") else None
-    sch = S.Scheduler(S.strategy_from_case(case["sched"]), trace_files=tf, max_steps=60000)
+    # the directed ("hot") part of a schedule exists only in the tight e4snd cases
+    sch = S.Scheduler(S.strategy_from_case(case["sched"], _after_reservation), trace_files=tf, max_steps=60000)
     ft = CB.FakeTransport(sch)
     chan = CB.make_channel(sch, ft, chanid=1, remote_chanid=7, **chan_kw)
     return sch, ft, chan
@@ -512,6 +524,25 @@ e4snd_case = st.fixed_dictionaries(
         "trace": st.sampled_from([True, True, False]),
     }
 )
+# "tight" e4snd cases: two or three tasks, one blocking call each, sizes at or above a small window, no adjust before
+# everybody has been served from the initial window, preemptions directed (schedule part "hot") at the switch points of
+# _send between leaving the channel lock and the transmit - the shape in which a reservation that is not atomic with the
+# window test (two senders allotted the same bytes) shows up
+e4snd_tight_case = st.fixed_dictionaries(
+    {
+        "fam": st.just("e4snd"),
+        "window": st.sampled_from([1, 100, 4095, 4096, 4097]),
+        "maxpkt": st.sampled_from([4096, 32768, 0xFFFFFFFF]),
+        "apps": st.lists(
+            st.lists(st.tuples(st.sampled_from(["send", "send_stderr", "sendall", "sendall_stderr"]), st.sampled_from([1, 50, 100, 4032, 4033, 5000]), st.just("block")), min_size=1, max_size=1),
+            min_size=2,
+            max_size=3,
+        ),
+        "adjusts": st.just([]),
+        "sched": S.schedule_strategy(max_pre=2, max_gap=30, max_forced=12, max_hot=3, hot_range=8),
+        "trace": st.sampled_from([True, False]),
+    }
+)
 e4rcv_case = st.fixed_dictionaries(
     {
         "fam": st.just("e4rcv"),
@@ -536,6 +567,7 @@ def run(ctx):
     # E4: deterministic, so failing cases are shrunk
     ctx.explore(e4snd_case, lambda c: body(ctx, c), ctx.scale(600, 6000), seed_offset=2)
     ctx.explore(e4rcv_case, lambda c: body(ctx, c), ctx.scale(300, 3000), seed_offset=3)
+    ctx.explore(e4snd_tight_case, lambda c: body(ctx, c), ctx.scale(300, 3000), seed_offset=4)
 
 
 def replay(ctx, case):
